@@ -8,8 +8,9 @@ ID = "C01"
 NEEDS_CVM = True
 ORACLE_ON_MODEL = False  # the model side of a VM case runs the *real* image: it is not Model(x) of the theorem
 AUDIT_IMPORTS = ["PortusModel.Props.C03", "PortusModel.Props.C10", "PortusModel.Props.C13", "PortusModel.Props.C14",
-                 "PortusModel.Props.C01Sim"]
-THEOREMS = ["Portus.C01.compiled_run_correct", "Portus.C01.check_accepts_compiled", "Portus.C01.exSrc_inTheorem",
+                 "PortusModel.Props.C01Sim", "PortusModel.Props.C01Decode"]
+THEOREMS = ["Portus.C01.run_correct_from_bytes", "Portus.C01.run_decoded", "Portus.C01.compiled_install_decodes", "Portus.C01.install_decodes",
+            "Portus.C01.exSrc_decodes", "Portus.C01.compiled_run_correct", "Portus.C01.check_accepts_compiled", "Portus.C01.exSrc_inTheorem",
             "Portus.Lang.Frag.compile_refines_lower", "Portus.Lang.Frag.rhoOk_of_compile", "Portus.Lang.Frag.defsFor_of_compile",
             "Portus.Lang.Frag.lowerE_correct", "Portus.Lang.Frag.lowerStmt_correct", "Portus.Lang.Frag.lowerEvents_correct",
             "Portus.Lang.Frag.invoke_correct", "Portus.Lang.Frag.lower_run_correct", "Portus.Lang.Frag.switch_sim",
@@ -17,7 +18,7 @@ THEOREMS = ["Portus.C01.compiled_run_correct", "Portus.C01.check_accepts_compile
             "Portus.C10.compile_and_serialize_no_panic"]
 RELATION = ("(a) image bytes of compile_and_serialize; (b) per-invocation observations (return code, set_cwnd, set_rate, report "
             "message) of the REAL libccp running the REAL image on scripted measurement/clock sequences, vs the Lean libccp model")
-RULE = ("type-directed stratified programs (all 16 operators in both spellings, tree shapes using 1..8 temporaries, locals across "
+RULE = ("type-directed programs (stratified, and with plain binds nested as values in 25% of the statements; all 16 operators in both spellings, tree shapes using 1..8 temporaries, locals across "
         "events, conditional/!if/ewma binds, several events with report/fallthrough combinations, volatile and non-volatile variables, "
         "legacy Report.x, +infinity and boundary literals) compiled by the real compiler; each run on 1..8 (thorough: ..20) "
         "invocations with primitives from {0, 1, 2^31, 2^32-1, 2^63, 2^64-1, small, random} and non-decreasing clocks with steps "
@@ -30,16 +31,17 @@ ASSUMPTIONS = ["fragment hypotheses (decidable, checked per case): Stratified, L
                "(&&/|| only on truth values), distinct non-built-in declared names, at most 255 instructions",
                "one clock reading per invocation; fallback timer disabled; a single program per connection",
                "ALU is a shared parameter (libccp's arithmetic and fault rules, incl. its incomplete multiplication-overflow test)"]
-LEVEL_TEXT = ("PARTIAL. Machine-checked proof (Lean 4) of the simulation theorem C01.compiled_run_correct / check_accepts_compiled: for every "
-              "program of the fragment (Stratified, DefBeforeUse, LitsOk, WritesOk, literal initial values, <= 6 locals, >= 1 event) that the "
-              "compiler and the encoder accept, and for EVERY sequence of measurement vectors and clock readings, the libccp machine model "
-              "running the compiled program from a fresh connection shows exactly the observations the source semantics denotes (faults and "
-              "their codes, settings, which invocations report and every reported value), as long as &&/|| meet truth values. It composes "
-              "compile = reference lowering under the final scope (compile_refines_lower) with lowering ~ source semantics "
-              "(lower_run_correct, switch_sim). Not proved (decided by correspondence/translation validation on generated programs, the "
-              "evidence counts in-theorem vs in-fragment cases): programs outside the fragment (nested binds, reads of never-assigned "
-              "names, non-literal initial values), the byte-level decoding of the image by libccp, staged updates, and the fidelity of the "
-              "Lean libccp model to libccp's C code (validated against the real libccp on every generated script).")
+LEVEL_TEXT = ("PARTIAL. Machine-checked proof (Lean 4), C01.run_correct_from_bytes: for every program of the fragment (Stratified, DefBeforeUse, "
+              "LitsOk, WritesOk, literal initial values, <= 6 locals, >= 1 event, <= 256 events/instructions) that the compiler and the "
+              "encoder accept, the libccp datapath model fed the BYTES of the install message and of a change-program message decodes "
+              "exactly the compiled program (install_decodes) and then, for EVERY sequence of measurement vectors and clock readings, "
+              "shows exactly the observations the source semantics denotes (faults and their codes, settings, which invocations report "
+              "and every reported value), as long as &&/|| meet truth values. It composes compile = reference lowering under the final "
+              "scope (compile_refines_lower), lowering ~ source semantics (lower_run_correct, switch_sim) and the decode theorem. Not "
+              "proved (decided by translation validation on generated programs; the evidence counts in-theorem / in-fragment cases): "
+              "programs outside the theorem's fragment - the oracle C01.check also decides hazard-free NESTED binds and reads of "
+              "never-assigned names -, staged field updates, and the fidelity of the Lean libccp model to libccp's C code (validated "
+              "against the real libccp on every generated script).")
 LEVEL_NOTE = "Trusts: Lean kernel for the proved lemmas; the oracle's source semantics (Lang/Sem.lean, ~200 lines, written from the documentation); sampling of programs and inputs."
 TECHNIQUE = "Lean 4 simulation proof (compile = reference lowering; lowering ~ source semantics on the libccp machine model) + translation validation of real compiler and real libccp against the Lean source semantics"
 
